@@ -422,10 +422,12 @@ def check_family(run, fam, pattern, n, ops_subset=None):
                     continue
                 except MemoryError:
                     # few Python calls, but values (texts) whose size follows the tree
+                    limit_off()
                     run.fail({"subcheck": "work:output-size", "operation": name, "family": fam, "pattern": pattern},
                              {"family": fam, "pattern": pattern, "n": size, "operation": name},
                              "%s on %s/%s (%d distinct nodes) exhausts %d GB of memory" % (name, fam, pattern, nodes, MEMORY_GB))
                     results[(name, size)] = None
+                    limit_on()
                     continue
                 except Exception as e:
                     run.discard("operation-raised:%s:%s" % (name, type(e).__name__))
@@ -477,22 +479,54 @@ def check_deep(run, fam, depth, ops_subset=None):
                 run.fail({"subcheck": "work:recursion", "operation": name, "family": fam, "pattern": "chain"},
                          {"family": fam, "pattern": "deep", "n": depth, "operation": name},
                          "%s on a %s chain of depth %d hits the recursion limit" % (name, fam, depth))
+            except MemoryError:
+                limit_off()
+                run.fail({"subcheck": "work:output-size", "operation": name, "family": fam, "pattern": "chain"},
+                         {"family": fam, "pattern": "deep", "n": depth, "operation": name},
+                         "%s on a %s chain of depth %d (linear size) exhausts %d GB of memory" % (name, fam, depth, MEMORY_GB))
+                limit_on()
             except Exception as e:
                 run.discard("deep-operation-raised:%s:%s" % (name, type(e).__name__))
 
 
 MEMORY_GB = 3
+_AS_LIMIT = {}
+
+
+def limit_on():
+    import resource
+    if "orig" not in _AS_LIMIT:
+        _AS_LIMIT["orig"] = resource.getrlimit(resource.RLIMIT_AS)
+    resource.setrlimit(resource.RLIMIT_AS, (MEMORY_GB << 30, _AS_LIMIT["orig"][1]))
+
+
+def limit_off():
+    """Also the first thing a MemoryError handler does: recording the failure needs memory."""
+    import resource, gc
+    if "orig" in _AS_LIMIT:
+        resource.setrlimit(resource.RLIMIT_AS, _AS_LIMIT["orig"])
+    gc.collect()
 
 
 def job(items):
-    import resource
-    resource.setrlimit(resource.RLIMIT_AS, (MEMORY_GB << 30, MEMORY_GB << 30))
     run = Run(PID)
-    for it in items:
-        if it[0] == "share":
-            check_family(run, it[1], it[2], it[3])
-        else:
-            check_deep(run, it[1], it[2])
+    try:
+        for it in items:
+            try:
+                limit_on()
+                if it[0] == "share":
+                    check_family(run, it[1], it[2], it[3])
+                else:
+                    check_deep(run, it[1], it[2])
+            except MemoryError:
+                # outside a measured operation (construction, counting the nodes)
+                limit_off()
+                run.fail({"subcheck": "work:output-size", "operation": "construct", "family": it[1], "pattern": str(it[2])},
+                         {"family": it[1], "pattern": it[2] if it[0] == "share" else "deep", "n": it[-1], "operation": "construct"},
+                         "building / measuring %s exhausts %d GB of memory" % (it[1], MEMORY_GB))
+    finally:
+        # the result has to travel back to the parent also when an operation filled the memory
+        limit_off()
     return run
 
 
@@ -534,10 +568,18 @@ def main():
 def replay(rec):
     run = Run(PID, known=[])
     c = rec["case"]
-    if c["pattern"] == "deep":
-        check_deep(run, c["family"], c["n"], {c["operation"]})
-    else:
-        check_family(run, c["family"], c["pattern"], c["n"] if c["n"] <= 40 else c["n"] // 2, {c["operation"]})
+    limit_on()
+    try:
+        if c["pattern"] == "deep":
+            check_deep(run, c["family"], c["n"], {c["operation"]})
+        else:
+            check_family(run, c["family"], c["pattern"], c["n"] if c["n"] <= 40 else c["n"] // 2, {c["operation"]})
+    except MemoryError:
+        limit_off()
+        run.fail({"subcheck": "work:output-size", "operation": "construct", "family": c["family"], "pattern": str(c["pattern"])},
+                 c, "building / measuring %s exhausts %d GB of memory" % (c["family"], MEMORY_GB))
+    finally:
+        limit_off()
     if run.violations:
         print("VIOLATION property=%s replay=(replayed)" % PID)
         print(run.violations[0]["detail"])
